@@ -830,6 +830,67 @@ def r01d(chk, repo) -> None:
     chk.floor("R01d.running_length_steps", 1)
 
 
+def r01e(chk, repo) -> None:
+    f = repo.fn(LEXER, "StringLexer._trim_match")
+    loops = [w for w in walk_local(f) if isinstance(w, ast.While)]
+    chk.count("R01e.subdivide_loops", len(loops))
+    if len(loops) != 1:
+        raise AnalysisError("R01e: StringLexer._trim_match no longer has exactly one subdividing while loop; re-confirm the anchor by hand")
+    loop = loops[0]
+    # carried buffers: names that are extended inside the loop and read in a LexedElement built after it
+    def lexed_args(node):
+        return [a for c in ast.walk(node) if isinstance(c, ast.Call) and last_attr(c) == "LexedElement" for a in c.args[:1]]
+    carried = set()
+    for a in lexed_args(f):
+        if isinstance(a, ast.BinOp) and isinstance(a.op, ast.Add) and isinstance(a.left, ast.Name):
+            carried.add(a.left.id)
+    chk.count("R01e.carried_buffers", len(carried))
+    if not carried:
+        raise AnalysisError("R01e: no `<buffer> + <rest>` text is put into a LexedElement in _trim_match; re-confirm the anchor by hand")
+
+    def blocks(node):
+        for n in ast.walk(node):
+            for fld in ("body", "orelse", "finalbody"):
+                b = getattr(n, fld, None)
+                if isinstance(b, list) and b and isinstance(b[0], ast.stmt):
+                    yield b
+
+    n = 0
+    for block in blocks(loop):
+        for i, st in enumerate(block):
+            binds = []  # (name, value or None for augmented add)
+            if isinstance(st, ast.AugAssign) and isinstance(st.target, ast.Name):
+                binds.append((st.target.id, st, "aug" if isinstance(st.op, ast.Add) else "other"))
+            elif isinstance(st, ast.Assign):
+                for t in st.targets:
+                    if isinstance(t, ast.Name):
+                        binds.append((t.id, st.value, "val"))
+                    elif isinstance(t, ast.Tuple) and isinstance(st.value, ast.Tuple) and len(t.elts) == len(st.value.elts):
+                        binds += [(x.id, v, "val") for x, v in zip(t.elts, st.value.elts) if isinstance(x, ast.Name)]
+                    elif isinstance(t, ast.Tuple):
+                        binds += [(x.id, None, "opaque") for x in t.elts if isinstance(x, ast.Name)]
+            for name, v, kind in binds:
+                if name not in carried:
+                    continue
+                n += 1
+                if kind == "aug":
+                    ok = True
+                elif kind == "val" and isinstance(v, ast.BinOp) and isinstance(v.op, ast.Add) and isinstance(v.left, ast.Name) and v.left.id == name:
+                    ok = True
+                elif kind == "val" and isinstance(v, ast.Constant) and v.value == "":
+                    ok = any(isinstance(a, ast.BinOp) and isinstance(a.left, ast.Name) and a.left.id == name for p in block[:i] for a in lexed_args(p))
+                else:
+                    ok = False
+                chk.require(
+                    ok, "R01e", st,
+                    f"_trim_match re-binds the carried buffer `{name}` inside the subdividing loop without keeping what it held (and without having emitted it in this block): with two or more "
+                    "interior whitespace runs in one match (a block comment of three words) the text before the earlier run is dropped and the lexed elements no longer add up to the input",
+                    detail=f"_trim_match: `{name}` grows or is flushed", construct=f"{LEXER}::StringLexer._trim_match",
+                )
+    chk.count("R01e.buffer_bindings", n)
+    chk.floor("R01e.buffer_bindings", 2)
+
+
 def run(chk) -> None:
     repo = chk.repo
     chk.rule("R01a", "for every dialect, every character the last-resort matcher cannot consume is consumed by some matcher of the dialect's resolved lexer table (lex never reaches 'Fatal. Unable to lex')")
@@ -838,6 +899,8 @@ def run(chk) -> None:
     r01c(chk, repo)
     chk.rule("R01d", "a lexed element that is split over several slices is cut where the previous piece ended: in _iter_segments every amount added to the running consumed length is computed from that running length (a step measured from the start of the element overshoots from the second split on)")
     r01d(chk, repo)
+    chk.rule("R01e", "the carried text of a subdivided match is never overwritten: in StringLexer._trim_match the buffer that holds the text before a mid-match run only grows (`buf += ..` / `buf = buf + ..`) or is emptied in the very block that has just put `buf + ..` into a LexedElement -- a plain re-binding drops the characters carried so far (lossless lexing)")
+    r01e(chk, repo)
     lr = last_resort(repo)
     r01b(chk, repo, lr)
     in_selftest = getattr(chk, "in_selftest", False)
@@ -874,6 +937,30 @@ _FILTER_OLD = (
 )
 
 VARIANTS = [
+    Variant(
+        "r01e-carried-text-overwritten", LEXER,
+        "                    content_buff += str_buff[: trim_pos[1]]\n                    str_buff = str_buff[trim_pos[1] :]\n",
+        "                    content_buff, str_buff = (\n                        str_buff[: trim_pos[1]],\n                        str_buff[trim_pos[1] :],\n                    )\n",
+        "R01e", "_trim_match", "seeded C01-9",
+    ),
+    Variant(
+        "r01e-carried-text-plain-assignment", LEXER,
+        "                    content_buff += str_buff[: trim_pos[1]]\n",
+        "                    content_buff = str_buff[: trim_pos[1]]\n",
+        "R01e", "_trim_match", "+= became =",
+    ),
+    Variant(
+        "quiet-r01e-explicit-concatenation", LEXER,
+        "                    content_buff += str_buff[: trim_pos[1]]\n",
+        "                    content_buff = content_buff + str_buff[: trim_pos[1]]\n",
+        "QUIET", None, "R01e: += written out",
+    ),
+    Variant(
+        "quiet-r01e-flush-reset-in-two-statements", LEXER,
+        "                    content_buff, str_buff = \"\", \"\"\n",
+        "                    content_buff = \"\"\n                    str_buff = \"\"\n",
+        "QUIET", None, "R01e: reset as two statements",
+    ),
     Variant(
         "split-step-measured-from-the-element-start", "src/sqlfluff/core/parser/lexer.py",
         "                            tfs.templated_slice.stop\n                            - element.template_slice.start\n                            - consumed_element_length\n",
